@@ -40,7 +40,18 @@ var solvers = []solverSpec{
 	}, true},
 }
 
-var solverSem = make(chan struct{}, 16)
+var solverSem = make(chan struct{}, solverJobs())
+
+// solverJobs: number of solver processes run at once (GOVC_JOBS, default 16 = the sandbox's cores).
+func solverJobs() int {
+	if s := os.Getenv("GOVC_JOBS"); s != "" {
+		var n int
+		if _, err := fmt.Sscanf(s, "%d", &n); err == nil && n > 0 {
+			return n
+		}
+	}
+	return 16
+}
 
 // Solve races the back ends on one script. unsat from any (and sat from none) wins.
 func Solve(script string, quantified bool, timeoutS int, scratch string, tag string) SolverResult {
